@@ -295,8 +295,62 @@ func init() {
 	explanations["C14"] = "NARROW: equality of the two parties' keys, conformance to SP 800-108 and independence of sessions are numerical and NOT decided. Decided: (a) the three suites derive keys with the same shape: sizes from EncryptAlg.KeySize() and, only if MacAlg!=0, MacAlg.KeySize(); nistkdf.KDF(PRFHash, secret, context, (sek+svk)*8); SEK=out[:sek], SVK=out[sek:]; (b) persistence completeness: each session type's UnmarshalCBOR assigns every field of the session and of the embedded SessionCrypter from the decoded persisted value, and MarshalCBOR reads every field except the re-derived Cipher; (c) the KDF resets its PRF before every block (a MAC is never continued across blocks); (d) degenerate Diffie-Hellman parameters are rejected: the DH derivation returns a key only after both range comparisons of the peer value and both comparisons of the shared secret passed; the ECDH path requires NewPublicKey and ECDH err==nil, OAEP requires DecryptOAEP err==nil; (e) fresh secrets derive from the rand argument."
 }
 
+// c14PrfMatchesMac: for encrypt-then-MAC suites the KDF's PRF hash is the hash
+// of the suite's HMAC (FDO 1.1 section 3.6.4 pairs them); the hash of each MAC
+// algorithm is read from its registration (the crypto.Hash constant handed to
+// the constructor helper), not from a table in the checker.
+func c14PrfMatchesMac(p *Prog, r *Result) {
+	rule := "C14.prf-matches-mac"
+	r.rule(rule, "every registered cipher suite that names a MAC algorithm derives its keys with the PRF hash of that MAC (hash read from the MAC's registration): HMAC-SHA256 suites use SHA-256, HMAC-SHA384 suites use SHA-384")
+	r.floor(rule, 4)
+	macHash := map[string]string{}
+	for _, call := range p.callsTo("fdo/cose.RegisterMacAlgorithm") {
+		a := call.Common().Args
+		alg, ok := constValue(a[0])
+		if !ok || len(a) < 3 {
+			continue
+		}
+		ctor := a[2]
+		if mi, ok := ctor.(*ssa.MakeInterface); ok {
+			ctor = mi.X
+		}
+		if cc, ok := ctor.(*ssa.Call); ok {
+			for _, ca := range cc.Common().Args {
+				if k, ok := ca.(*ssa.Const); ok && typeShort(ca.Type()) == "crypto.Hash" {
+					macHash[alg.ExactString()] = k.Value.ExactString()
+				}
+			}
+		}
+	}
+	for _, call := range p.callsTo("fdo/kex.RegisterCipherSuite") {
+		a := call.Common().Args
+		id, ok := constValue(a[0])
+		if !ok {
+			continue
+		}
+		fl := structLiteralFields(a[1])
+		get := func(n string) string {
+			if v, ok := fl[n]; ok {
+				if cv, ok := constValue(v); ok {
+					return cv.ExactString()
+				}
+				return "?"
+			}
+			return "0"
+		}
+		mac, prf := get("MacAlg"), get("PRFHash")
+		if mac == "0" {
+			continue
+		}
+		want, known := macHash[mac]
+		r.table(p, rule, "cipher suite "+id.ExactString(), p.instrPos(call), known && want == prf,
+			fmt.Sprintf("MacAlg=%s uses hash %s (known=%v), PRFHash=%s", mac, want, known, prf))
+	}
+}
+
 func checkC14(c *Ctx, p *Prog, r *Result) {
 	kexPkg := modulePath + "/kex"
+	c14PrfMatchesMac(p, r)
 	// (a) sibling derivations
 	r.rule("C14.derivation-shape", "every function of package kex that calls nistkdf.KDF has the same derivation shape (see explanation)")
 	r.floor("C14.derivation-shape", 3)
@@ -646,6 +700,28 @@ func checkC15(c *Ctx, p *Prog, r *Result) {
 		}
 	}
 
+	// (b2) the key is read in full whatever budget is left
+	r.rule("C15.key-read-unbudgeted", "in ChunkReader.ReadChunk no reader limit (io.LimitReader) depends on the remaining-size parameter: a key cut short by the budget makes the call fail after the pipe reader was taken off the queue, losing or failing the whole service info; an oversized key is handled by the size check that follows, which keeps the reader for the next message")
+	r.floor("C15.key-read-unbudgeted", 1)
+	if rc := p.ByName["fdo/serviceinfo.ChunkReader.ReadChunk"]; rc != nil {
+		m := p.matcher(rc)
+		n := 0
+		for _, b := range rc.Blocks {
+			for _, in := range b.Instrs {
+				call, ok := in.(ssa.CallInstruction)
+				if !ok || p.calleeOf(call.Common()).Name != "io.LimitReader" {
+					continue
+				}
+				n++
+				pv := m.Prov(call.Common().Args[1])
+				r.table(p, "C15.key-read-unbudgeted", siteKey(p, call), p.instrPos(call), !pv.Has("param:1"), "limit provenance: "+joinMax(pv.List(), 6))
+			}
+		}
+		if n == 0 {
+			r.table(p, "C15.key-read-unbudgeted", "no reader limit in ChunkReader.ReadChunk", p.Pos(rc.Pos()), true, "no io.LimitReader call")
+		}
+	}
+
 	// (c) ReadChunk overhead
 	r.rule("C15.readchunk-overhead", "ChunkReader.ReadChunk reads value bytes only after size - overhead <= 0 was false, and the overhead derives from the length of the raw encoded key")
 	r.floor("C15.readchunk-overhead", 2)
@@ -793,6 +869,12 @@ func checkC16(c *Ctx, p *Prog, r *Result) {
 	r.floor("C16.receive-only-when-active", 1)
 	r.requireAtSites(f, "C16.receive-only-when-active", f.CallSites(func(cal Callee, call ssa.CallInstruction) bool {
 		return cal.Name == "fdo/serviceinfo.DeviceModule.Receive" && funcPkgPath(call.Parent()) == modulePath
+	}), []Atom{"module-active"})
+
+	r.rule("C16.yield-only-when-active", "DeviceModule.Yield is invoked by the TO2 dispatcher only where the module was found active (sibling of the Receive gate: a deactivated or never activated module is not driven)")
+	r.floor("C16.yield-only-when-active", 1)
+	r.requireAtSites(f, "C16.yield-only-when-active", f.CallSites(func(cal Callee, call ssa.CallInstruction) bool {
+		return cal.Name == "fdo/serviceinfo.DeviceModule.Yield" && funcPkgPath(call.Parent()) == modulePath
 	}), []Atom{"module-active"})
 
 	// (d)
